@@ -160,9 +160,44 @@ def r6_unary_over_chains(ctx, rule="C10.R6"):
                     continue
                 ctx.decide(got == [want], rule, key, fn.loc, want,
                            "`%s a %s b %s c` is built as %s, the ranks prescribe %s" % (u, op1, op2, got, want))
+    n3 = 0
+    if ctx.tier == "thorough":
+        # three-level chains u a op1 b op2 c op3 d, grouped ((a op1 b) op2 c) op3 d by the binary pass
+        def want3(u, ops):
+            # push u down the left spine past every operator it binds tighter than
+            def build(k):           # tree of ops[:k+1]
+                if k < 0:
+                    return "x"
+                return "(%s %s x)" % (build(k - 1), ops[k])
+            def place(k):           # u applied somewhere inside the tree of ops[:k+1]
+                if k < 0:
+                    return "%s[x]" % u
+                if URANK[u] > RANK[ops[k]]:
+                    return "(%s %s x)" % (place(k - 1), ops[k])
+                return "%s[%s]" % (u, build(k))
+            return place(len(ops) - 1)
+        for u in prog.variants(UOP):
+            for op1 in prog.variants(OP):
+                for op2 in prog.variants(OP):
+                    if RANK[op1] < RANK[op2]:
+                        continue
+                    for op3 in prog.variants(OP):
+                        if RANK[op2] < RANK[op3]:
+                            continue
+                        n3 += 1
+                        x = binop(op3, binop(op2, binop(op1, leaf(), leaf()), leaf()), leaf())
+                        got = sorted({_tree(r) for r in eng.summary(fn, (x, tf.Tag(UOP, u), tf.TOP))})
+                        want = want3(u, [op1, op2, op3])
+                        key = "%s:%s(%s,%s,%s)" % (rule, u, op1, op2, op3)
+                        if any("?" in g for g in got):
+                            ctx.unknown(rule, key, fn.loc, "abstract result %s" % got)
+                            continue
+                        ctx.decide(got == [want], rule, key, fn.loc, want,
+                                   "`%s a %s b %s c %s d` is built as %s, the ranks prescribe %s"
+                                   % (u, op1, op2, op3, got, want))
     if eng.imprecise:
         ctx.notes.append("C10.R6 abstract interpreter imprecision: %s" % eng.imprecise[:3])
-    ctx.analysed_units(rule, function=fn.path, trees=n)
+    ctx.analysed_units(rule, function=fn.path, trees=n, three_level_trees=n3)
     ctx.require(rule, 150)
 
 
